@@ -97,16 +97,20 @@ func NewBucket[V comparable](capacity int) *Bucket[V] {
 	}
 }
 
-// IsStale returns true if the latest item in the bucket is expired.
+// IsStale returns true if every item in the bucket is expired. The items are
+// kept in a min-heap, so the item that expires last can sit anywhere among the
+// leaves: all of them have to be inspected.
 func (b *Bucket[V]) IsStale() (stale bool) {
 	b.mtx.Lock()
 	defer b.mtx.Unlock()
-	if b.items.Len() == 0 {
-		return true
-	}
 
-	latest := b.items[b.items.Len()-1]
-	return latest.expired(time.Now())
+	now := time.Now()
+	for _, item := range b.items {
+		if !item.expired(now) {
+			return false
+		}
+	}
+	return true
 }
 
 // Upsert tries to add a new value and its priority to the bucket.
